@@ -31,12 +31,12 @@ func (m *Manager) DAIncluderLoop(ctx context.Context, errCh chan<- error) {
 			if daIncluded {
 				m.logger.Debug("both header and data are DA-included, advancing height: ", nextHeight)
 				if err := m.SetRollkitHeightToDAHeight(ctx, nextHeight); err != nil {
-					errCh <- fmt.Errorf("failed to set rollkit height to DA height: %w", err)
+					sendError(ctx, errCh, fmt.Errorf("failed to set rollkit height to DA height: %w", err))
 					return
 				}
 				// Both header and data are DA-included, so we can advance the height
 				if err := m.incrementDAIncludedHeight(ctx); err != nil {
-					errCh <- fmt.Errorf("error while incrementing DA included height: %w", err)
+					sendError(ctx, errCh, fmt.Errorf("error while incrementing DA included height: %w", err))
 					return
 				}
 
